@@ -4,7 +4,7 @@
    model theorems (proved in EFModel.C19_Return1D_proofs / EFModel.C19_Commit). *)
 From Coquelicot Require Import Coquelicot.
 From Coq Require Import Reals List Lra Bool.
-From EFModel Require Import C19_Return1D C19_Return1D_proofs C19_Commit C19_Lift C19_PlaneStress C19_Radial C19_Tangent C19_Units C19_KuhnTucker C19_Tangent2.
+From EFModel Require Import C19_Return1D C19_Return1D_proofs C19_Commit C19_Lift C19_PlaneStress C19_Radial C19_Tangent C19_Units C19_KuhnTucker C19_Tangent2 C19_Unique.
 From EFP Require Import Gen_C19.
 Import List ListNotations.
 Open Scope R_scope.
@@ -107,6 +107,37 @@ Theorem gen_tangent_match : forall lam y d theta slope drdtheta phi active,
     gen_tan_b lam y d phi = tan_b lam y d phi /\
     gen_ret_d lam theta = dfac Rops theta lam.
 Proof. intros; repeat split; reflexivity. Qed.
+
+(* the shipped hardening laws, translated from IsotropicHardening.py: under the constructor's own
+   assertions R is non-decreasing (the hypothesis of the uniqueness / agreement theorems), R(0) = 0,
+   R is the derivative of the stored energy psi and dR the derivative of R *)
+Theorem gen_linear_hardening : forall H, 0 <= H ->
+    (forall x y, x <= y -> gen_linear_R H x <= gen_linear_R H y) /\ gen_linear_R H 0 = 0 /\
+    (forall x, is_derive (gen_linear_psi H) x (gen_linear_R H x)) /\
+    (forall x, is_derive (gen_linear_R H) x (gen_linear_dR H x)).
+Proof.
+  intros H HH. unfold gen_linear_R, gen_linear_psi, gen_linear_dR. split; [|split; [|split]].
+  - intros x y Hxy. apply Rmult_le_compat_l; assumption.
+  - ring.
+  - intro x. auto_derive; [exact I | field].
+  - intro x. auto_derive; [exact I | field].
+Qed.
+
+Theorem gen_voce_hardening : forall Q b, 0 <= Q -> 0 < b ->
+    (forall x y, x <= y -> gen_voce_R Q b x <= gen_voce_R Q b y) /\ gen_voce_R Q b 0 = 0 /\
+    (forall x, is_derive (gen_voce_psi Q b) x (gen_voce_R Q b x)) /\
+    (forall x, is_derive (gen_voce_R Q b) x (gen_voce_dR Q b x)).
+Proof.
+  intros Q b HQ Hb. unfold gen_voce_R, gen_voce_psi, gen_voce_dR. split; [|split; [|split]].
+  - intros x y Hxy. apply Rmult_le_compat_l; [assumption|].
+    assert (exp (- b * y) <= exp (- b * x)).
+    { destruct (Rle_lt_or_eq_dec _ _ Hxy) as [Hlt | ->]; [|lra].
+      left. apply exp_increasing. nra. }
+    lra.
+  - replace (- b * 0) with 0 by ring. rewrite exp_0. ring.
+  - intro x. auto_derive; [lra | field; lra].
+  - intro x. auto_derive; [exact I | ring].
+Qed.
 
 (* ------------------------------------------------------------------------------------------ *)
 (* B. von Mises / Hill: the flow direction P sigma is deviatoric                               *)
@@ -309,6 +340,37 @@ Theorem C19_tangent_is_jacobian_2d : forall lam H sy dt p,
     is_derive (fun t => s2 lam H sy p y1 t) y2 (entry lam H sy dt p true 1 1 y1 y2).
 Proof. intros; apply tangent_is_jacobian_2d; assumption. Qed.
 Print Assumptions C19_tangent_is_jacobian_2d.
+
+(* uniqueness of the returned state and agreement of any two solvers: radial eigen-structure,
+   ANY non-decreasing hardening (Linear, Voce by the two theorems above), no rate law *)
+Theorem C19_root_unique : forall lam sy dt p Rh ps,
+    uniform lam ps -> 0 < lam -> 0 < phi Rops ps 0 -> (forall x y, x <= y -> Rh x <= Rh y) ->
+    forall a b, 0 <= a -> 0 <= b ->
+    resid Rops Rh None dt sy (mkPoint ps p) a = 0 -> resid Rops Rh None dt sy (mkPoint ps p) b = 0 -> a = b.
+Proof. intros; eapply root_unique; eauto. Qed.
+Print Assumptions C19_root_unique.
+
+Theorem C19_two_solutions_close : forall lam sy dt p Rh ps,
+    uniform lam ps -> 0 < lam -> 0 < phi Rops ps 0 -> (forall x y, x <= y -> Rh x <= Rh y) ->
+    forall a b eps, 0 <= a -> 0 <= b ->
+    Rabs (resid Rops Rh None dt sy (mkPoint ps p) a) <= eps ->
+    Rabs (resid Rops Rh None dt sy (mkPoint ps p) b) <= eps ->
+    Forall (fun q => phi Rops ps 0 * Rabs (snd q * dfac Rops a (fst q) - snd q * dfac Rops b (fst q))
+                     <= 2 * eps * Rabs (snd q)) ps /\
+    lam * Rabs (p_new Rops (mkPoint ps p) a - p_new Rops (mkPoint ps p) b) <= 2 * eps.
+Proof. intros; eapply two_solutions_close; eauto. Qed.
+Print Assumptions C19_two_solutions_close.
+
+(* in particular for the Voce law as the source defines it *)
+Theorem C19_voce_root_unique : forall Q b lam sy dt p ps, 0 <= Q -> 0 < b ->
+    uniform lam ps -> 0 < lam -> 0 < phi Rops ps 0 ->
+    forall t1 t2, 0 <= t1 -> 0 <= t2 ->
+    resid Rops (gen_voce_R Q b) None dt sy (mkPoint ps p) t1 = 0 ->
+    resid Rops (gen_voce_R Q b) None dt sy (mkPoint ps p) t2 = 0 -> t1 = t2.
+Proof.
+  intros Q b lam sy dt p ps HQ Hb Hu Hl Hp t1 t2 H1 H2 E1 E2.
+  apply (root_unique lam sy dt p (gen_voce_R Q b) ps Hu Hl Hp (proj1 (gen_voce_hardening Q b HQ Hb)) t1 t2 H1 H2 E1 E2).
+Qed.
 
 (* discrete Kuhn-Tucker conditions at the returned state, every eigen-structure *)
 Theorem C19_kuhn_tucker_flow : forall Rh dRh dt sy tol start, (forall p0 f, 0 <= start p0 f) ->
